@@ -232,6 +232,7 @@ def othersSame (prev cur : List (MKey × Entry)) (aff : MKey → Bool) : Bool :=
 def invariants (s : St) (im : Impl) : String :=
   if !countExact s then "viol:count-not-outstanding"
   else if !s.entries.all (entryOK s.nextTok) then "viol:entry-unjustified"
+  else if s.maxPer > 0 && (sessionIndex ((sortBy (fun a b => keyLt a.1 b.1) s.entries).map (·.1))).any (fun g => decide ((g.2.length : Int) > s.maxPer)) then "viol:session-limit-exceeded"
   else if im.sessions != renderSessions (sessionIndex ((sortBy (fun a b => keyLt a.1 b.1) s.entries).map (·.1))) then "viol:session-index"
   else "ok"
 
@@ -395,7 +396,8 @@ def stepDrv (st : DSt) (opLine impl : String) : DSt × String × String :=
            let threads := (ths.zip rs).map (fun (ops, r) => ({ ops := ops, res := r.splitOn "+" } : Th))
            if threads.any (fun t => t.ops.length != t.res.length) then ({ model := cur, prev := cur }, "-", "viol:unparseable-output") else
            let total := (ths.map List.length).sum
-           let ok := linearize st.model.nextTok raw (total + 1) { st := st.model, ths := threads }
+           -- start from the implementation's own previous dump, so an earlier divergence is not blamed on the window
+           let ok := linearize st.prev.nextTok raw (total + 1) { st := st.prev, ths := threads }
            let v := if !ok then "viol:not-linearizable" else inv
            ({ model := cur, prev := cur }, "-", v)
          | _, _ => (st, "-", "viol:unparseable-output"))
